@@ -255,11 +255,11 @@ fn name_of(k: usize) -> &'static str {
 }
 
 macro_rules! install_queries {
-    ($name:ident, $x:expr, $y:expr, $two:expr) => {
+    ($name:ident, $n:expr, $x:expr, $y:expr, $two:expr) => {
 #[kani::proof]
-#[kani::unwind(5)]
+#[kani::unwind(4)]
 fn $name() {
-    const N: usize = 2;
+    const N: usize = $n;
     let ma: u8 = kani::any();
     let mb: u8 = kani::any();
     let sizes: [u32; N] = kani::any();
@@ -324,7 +324,7 @@ fn $name() {
             assert!(r_any[p].0 < r_any[p + 1].0, "results must be in ascending file order");
         }
     }
-    kani::cover!(c_any == 2, "both files selected by the any-of query");
+    kani::cover!(c_any == N, "every file selected by the any-of query");
     std::mem::forget(r_all);
     std::mem::forget(r_any);
     std::mem::forget(m);
@@ -332,112 +332,237 @@ fn $name() {
     };
 }
 // @family prop=C19 tier=quick timeout=900 role=install-queries
-// @bounds 2 files with symbolic sizes (u32), 2 tags "a","b" with symbolic 1-byte masks; query concrete per harness: [a], [a,b], [a,missing]
+// @bounds 1 file (quick; the all-of / any-of / missing-tag distinctions are all visible on one file) with symbolic size, 2 tags "a","b" with symbolic 1-byte masks; query concrete per harness: [a], [a,b], [a,missing]
 // @encodes cascette_formats::install::InstallManifest::get_files_for_tags, cascette_formats::install::InstallManifest::get_files_for_any_tag, cascette_formats::install::InstallManifest::calculate_install_size, cascette_formats::install::InstallManifest::find_tag
 // @catches all-of computed as any-of, missing tag ignored instead of empty result, size summed over the wrong set, index/entry pairing
-install_queries!(c19_install_queries_a, 0, 0, false);
-install_queries!(c19_install_queries_a_b, 0, 1, true);
-install_queries!(c19_install_queries_a_missing, 0, 2, true);
+install_queries!(c19_install_queries_n1_a, 1, 0, 0, false);
+install_queries!(c19_install_queries_n1_a_b, 1, 0, 1, true);
+install_queries!(c19_install_queries_n1_a_missing, 1, 0, 2, true);
+// @end
+// @family prop=C19 tier=thorough timeout=3400 mem=28 role=install-queries-n2
+// @bounds 2 files, otherwise as above
+// @encodes cascette_formats::install::InstallManifest::get_files_for_tags, cascette_formats::install::InstallManifest::get_files_for_any_tag, cascette_formats::install::InstallManifest::calculate_install_size
+install_queries!(c19_install_queries_n2_a_b, 2, 0, 1, true);
 // @end
 
 
-// @harness prop=C19 tier=quick timeout=900 role=download-queries
-// @bounds 2 entries with symbolic 40-bit sizes and priorities, V1/V2/V3 header with symbolic base priority, 2 tags with symbolic masks, symbolic category / priority range
-// @encodes cascette_formats::download::DownloadManifest::entries_by_tags, cascette_formats::download::DownloadManifest::calculate_size_for_tags, cascette_formats::download::DownloadManifest::entries_by_priority, cascette_formats::download::DownloadManifest::entries_by_priority_range, cascette_formats::download::DownloadManifest::essential_download_size, cascette_formats::download::DownloadFileEntry::effective_priority, cascette_formats::download::PriorityCategory::from_priority
-// @catches wrapping instead of saturating priority adjustment, category boundaries, size sums over the wrong set, 40-bit size truncation
+// ---- download side ---------------------------------------------------------------------------------
+fn spec_eff(ver: u8, prio: i8, base: i8) -> i8 {
+    if ver == 3 {
+        let d = prio as i16 - base as i16;
+        if d > 127 { 127 } else if d < -128 { -128 } else { d as i8 }
+    } else {
+        prio
+    }
+}
+fn spec_cat(e: i8) -> PriorityCategory {
+    if e < 0 {
+        PriorityCategory::Critical
+    } else if e == 0 {
+        PriorityCategory::Essential
+    } else if e <= 2 {
+        PriorityCategory::High
+    } else if e <= 5 {
+        PriorityCategory::Normal
+    } else {
+        PriorityCategory::Low
+    }
+}
+fn mk_header(ver: u8, n: u32, tags: u16, base: i8) -> DownloadHeader {
+    match ver {
+        1 => DownloadHeader::new_v1(n, tags, false),
+        2 => DownloadHeader::new_v2(n, tags, false, 0),
+        _ => DownloadHeader::new_v3(n, tags, false, 0, base),
+    }
+}
+
+// @harness prop=C19 tier=quick timeout=600 role=download-priority-kernel
+// @bounds every i8 priority, every i8 base priority, header versions 1..=3, every 40-bit size
+// @encodes cascette_formats::download::DownloadFileEntry::new, cascette_formats::download::DownloadFileEntry::effective_priority, cascette_formats::download::DownloadFileEntry::priority_category, cascette_formats::download::DownloadFileEntry::is_essential, cascette_formats::download::DownloadFileEntry::is_critical, cascette_formats::download::DownloadFileEntry::is_high_priority, cascette_formats::download::PriorityCategory::from_priority, cascette_formats::download::FileSize40
+// @catches wrapping instead of saturating priority adjustment, base applied to V1/V2, category boundaries, 40-bit size limit off by one
+#[kani::proof]
+#[kani::unwind(3)]
+fn c19_download_priority_kernel() {
+    let prio: i8 = kani::any();
+    let base: i8 = kani::any();
+    let ver: u8 = kani::any();
+    kani::assume(ver >= 1 && ver <= 3);
+    let size: u64 = kani::any();
+    let h = mk_header(ver, 1, 0, base);
+    match DownloadFileEntry::new(EncodingKey::from_bytes([0u8; 16]), size, prio) {
+        Err(e) => {
+            assert!(size > 0xFF_FFFF_FFFF, "a size that fits in 40 bits was rejected");
+            std::mem::forget(e); // error enums embed binrw::Error: recursive drop glue
+        }
+        Ok(e) => {
+            assert!(size <= 0xFF_FFFF_FFFF, "a size above 2^40-1 was accepted");
+            assert!(e.file_size.as_u64() == size, "40-bit size not preserved");
+            let b = e.file_size.to_bytes();
+            assert!(((b[0] as u64) << 32 | (b[1] as u64) << 24 | (b[2] as u64) << 16 | (b[3] as u64) << 8 | b[4] as u64) == size, "40-bit size must serialise big-endian");
+            let eff = spec_eff(ver, prio, base);
+            assert!(e.effective_priority(&h) == eff, "effective priority is not the clamped difference (V3) / the raw priority (V1, V2)");
+            assert!(e.priority_category(&h) == spec_cat(eff), "priority category boundaries");
+            assert!(e.is_essential(&h) == (eff <= 0), "is_essential");
+            assert!(e.is_critical(&h) == (eff < 0), "is_critical");
+            assert!(e.is_high_priority(&h) == (eff <= 1), "is_high_priority");
+            kani::cover!(ver == 3 && prio as i16 - base as i16 > 127, "saturation at +127");
+            kani::cover!(ver == 3 && (prio as i16 - base as i16) < -128, "saturation at -128");
+            std::mem::forget(e);
+        }
+    }
+}
+
+macro_rules! download_tag_queries {
+    ($name:ident, $q:expr, $na:expr, $nb:expr) => {
+        #[kani::proof]
+        #[kani::unwind(5)]
+        fn $name() {
+            const N: usize = 2;
+            let ma: u8 = kani::any();
+            let mb: u8 = kani::any();
+            let sizes: [u64; N] = kani::any();
+            kani::assume(sizes[0] <= 0xFF_FFFF_FFFF && sizes[1] <= 0xFF_FFFF_FFFF);
+            let m = DownloadManifest {
+                header: DownloadHeader::new_v1(N as u32, 2, false),
+                entries: vec![
+                    DownloadFileEntry::new(EncodingKey::from_bytes([0u8; 16]), sizes[0], 0).unwrap(),
+                    DownloadFileEntry::new(EncodingKey::from_bytes([1u8; 16]), sizes[1], 0).unwrap(),
+                ],
+                tags: vec![
+                    InstallTag { name: String::from("a"), tag_type: TagType::Platform, bit_mask: vec![ma] },
+                    InstallTag { name: String::from("b"), tag_type: TagType::Locale, bit_mask: vec![mb] },
+                ],
+            };
+            let q: &[&str] = &$q;
+            // model: every named tag must exist and contain the file; an empty query selects everything
+            let sel = |g: usize| -> bool {
+                let a_ok = !$na || spec_bit(&[ma], g);
+                let b_ok = !$nb || spec_bit(&[mb], g);
+                let missing = q.len() > ($na as usize + $nb as usize);
+                !missing && a_ok && b_ok
+            };
+            let r = m.entries_by_tags(q);
+            let total = m.calculate_size_for_tags(q);
+            let c = sel(0) as usize + sel(1) as usize;
+            let s = (if sel(0) { sizes[0] } else { 0 }) + (if sel(1) { sizes[1] } else { 0 });
+            assert!(r.len() == c, "entries_by_tags returns a wrong number of entries");
+            assert!(total == s, "calculate_size_for_tags is not the sum over the selected set");
+            let p: usize = kani::any();
+            if p < r.len() {
+                assert!(r[p].0 < N && sel(r[p].0), "entries_by_tags returned an unselected entry");
+                assert!(r[p].1.file_size.as_u64() == sizes[r[p].0], "index/entry pairing broken");
+                if p + 1 < r.len() {
+                    assert!(r[p].0 < r[p + 1].0, "ascending order");
+                }
+            }
+            kani::cover!(c <= 1, "at most one entry selected");
+            std::mem::forget(r);
+            std::mem::forget(m);
+        }
+    };
+}
+macro_rules! download_tag_queries_n1 {
+    ($name:ident, $q:expr, $na:expr, $nb:expr) => {
+        #[kani::proof]
+        #[kani::unwind(4)]
+        fn $name() {
+            const N: usize = 1;
+            let ma: u8 = kani::any();
+            let mb: u8 = kani::any();
+            let sizes: [u64; N] = kani::any();
+            kani::assume(sizes[0] <= 0xFF_FFFF_FFFF);
+            let m = DownloadManifest {
+                header: DownloadHeader::new_v1(N as u32, 2, false),
+                entries: vec![
+                    DownloadFileEntry::new(EncodingKey::from_bytes([0u8; 16]), sizes[0], 0).unwrap(),
+                ],
+                tags: vec![
+                    InstallTag { name: String::from("a"), tag_type: TagType::Platform, bit_mask: vec![ma] },
+                    InstallTag { name: String::from("b"), tag_type: TagType::Locale, bit_mask: vec![mb] },
+                ],
+            };
+            let q: &[&str] = &$q;
+            // model: every named tag must exist and contain the file; an empty query selects everything
+            let sel = |g: usize| -> bool {
+                let a_ok = !$na || spec_bit(&[ma], g);
+                let b_ok = !$nb || spec_bit(&[mb], g);
+                let missing = q.len() > ($na as usize + $nb as usize);
+                !missing && a_ok && b_ok
+            };
+            let r = m.entries_by_tags(q);
+            let total = m.calculate_size_for_tags(q);
+            let c = sel(0) as usize;
+            let s = if sel(0) { sizes[0] } else { 0 };
+            assert!(r.len() == c, "entries_by_tags returns a wrong number of entries");
+            assert!(total == s, "calculate_size_for_tags is not the sum over the selected set");
+            let p: usize = kani::any();
+            if p < r.len() {
+                assert!(r[p].0 < N && sel(r[p].0), "entries_by_tags returned an unselected entry");
+                assert!(r[p].1.file_size.as_u64() == sizes[r[p].0], "index/entry pairing broken");
+                if p + 1 < r.len() {
+                    assert!(r[p].0 < r[p + 1].0, "ascending order");
+                }
+            }
+            kani::cover!(c <= 1, "at most one entry selected");
+            std::mem::forget(r);
+            std::mem::forget(m);
+        }
+    };
+}
+// @family prop=C19 tier=quick timeout=900 role=download-tag-queries-n1
+// @bounds 1 entry with symbolic 40-bit size, 2 tags "a","b" with symbolic 1-byte masks; query concrete per harness: [a], [a,b], [a,missing]
+// @encodes cascette_formats::download::DownloadManifest::entries_by_tags, cascette_formats::download::DownloadManifest::calculate_size_for_tags
+// @catches any-of instead of all-of, missing tag ignored, size over the wrong set
+download_tag_queries_n1!(c19_download_tag_queries_n1_a, ["a"], true, false);
+download_tag_queries_n1!(c19_download_tag_queries_n1_a_b, ["a", "b"], true, true);
+download_tag_queries_n1!(c19_download_tag_queries_n1_a_missing, ["a", "zz"], true, false);
+// @end
+// @family prop=C19 tier=thorough timeout=2400 mem=24 role=download-tag-queries
+// @bounds 2 entries with symbolic 40-bit sizes, 2 tags "a","b" with symbolic 1-byte masks; query concrete per harness: [a], [a,b], [a,missing], []
+// @encodes cascette_formats::download::DownloadManifest::entries_by_tags, cascette_formats::download::DownloadManifest::calculate_size_for_tags
+// @catches any-of instead of all-of, missing tag ignored, size over the wrong set
+download_tag_queries!(c19_download_tag_queries_n2_a_b, ["a", "b"], true, true);
+// @end
+
+// @harness prop=C19 tier=quick timeout=900 role=download-priority-queries
+// @bounds 2 entries with symbolic sizes and priorities, V1..V3 header with symbolic base priority, symbolic priority range and category
+// @encodes cascette_formats::download::DownloadManifest::entries_by_priority, cascette_formats::download::DownloadManifest::entries_by_priority_range, cascette_formats::download::DownloadManifest::essential_download_size
+// @catches range bounds exclusive/inclusive mix-up, raw instead of effective priority, essential size over the wrong set
 #[kani::proof]
 #[kani::unwind(5)]
-fn c19_download_queries() {
+fn c19_download_priority_queries() {
     const N: usize = 2;
-    let ma: u8 = kani::any();
-    let mb: u8 = kani::any();
     let sizes: [u64; N] = kani::any();
     let prios: [i8; N] = kani::any();
     let base: i8 = kani::any();
     let ver: u8 = kani::any();
     kani::assume(ver >= 1 && ver <= 3);
     kani::assume(sizes[0] <= 0xFF_FFFF_FFFF && sizes[1] <= 0xFF_FFFF_FFFF);
-    let header = match ver {
-        1 => DownloadHeader::new_v1(N as u32, 2, false),
-        2 => DownloadHeader::new_v2(N as u32, 2, false, 0),
-        _ => DownloadHeader::new_v3(N as u32, 2, false, 0, base),
-    };
-    let mut entries = Vec::new();
-    let mut k = 0;
-    while k < N {
-        entries.push(DownloadFileEntry::new(EncodingKey::from_bytes([0u8; 16]), sizes[k], prios[k]).unwrap());
-        k += 1;
-    }
-    let m = DownloadManifest {
-        header,
-        entries,
-        tags: vec![
-            InstallTag { name: String::from("a"), tag_type: TagType::Platform, bit_mask: vec![ma] },
-            InstallTag { name: String::from("b"), tag_type: TagType::Locale, bit_mask: vec![mb] },
-        ],
-    };
-    // effective priority: priority - base, clamped to i8 (V3 only)
-    let eff = |f: usize| -> i8 {
-        if ver == 3 {
-            let d = prios[f] as i16 - base as i16;
-            if d > 127 { 127 } else if d < -128 { -128 } else { d as i8 }
-        } else {
-            prios[f]
-        }
-    };
-    let cat = |e: i8| -> PriorityCategory {
-        if e < 0 { PriorityCategory::Critical } else if e == 0 { PriorityCategory::Essential } else if e <= 2 { PriorityCategory::High } else if e <= 5 { PriorityCategory::Normal } else { PriorityCategory::Low }
-    };
-    let f: usize = kani::any();
-    kani::assume(f < N);
-    assert!(m.entries[f].effective_priority(&m.header) == eff(f), "effective priority is not the clamped difference");
-    assert!(m.entries[f].priority_category(&m.header) == cat(eff(f)), "priority category boundaries");
-    assert!(m.entries[f].is_essential(&m.header) == (eff(f) <= 0), "is_essential");
-    assert!(m.entries[f].file_size.as_u64() == sizes[f], "40-bit size not preserved");
-
-    // tag queries
-    let both: bool = kani::any();
-    let q2 = ["a", "b"];
-    let q: &[&str] = if both { &q2[..] } else { &q2[..1] };
-    let sel = |g: usize| spec_bit(&[ma], g) && (!both || spec_bit(&[mb], g));
-    let r = m.entries_by_tags(q);
-    let total = m.calculate_size_for_tags(q);
     let (lo, hi): (i8, i8) = (kani::any(), kani::any());
+    let m = DownloadManifest {
+        header: mk_header(ver, N as u32, 0, base),
+        entries: vec![
+            DownloadFileEntry::new(EncodingKey::from_bytes([0u8; 16]), sizes[0], prios[0]).unwrap(),
+            DownloadFileEntry::new(EncodingKey::from_bytes([1u8; 16]), sizes[1], prios[1]).unwrap(),
+        ],
+        tags: Vec::new(),
+    };
+    let e0 = spec_eff(ver, prios[0], base);
+    let e1 = spec_eff(ver, prios[1], base);
+    let in0 = e0 >= lo && e0 <= hi;
+    let in1 = e1 >= lo && e1 <= hi;
     let rr = m.entries_by_priority_range(lo, hi);
-    let ess = m.essential_download_size();
-    let (mut c, mut s, mut cr, mut se) = (0usize, 0u64, 0usize, 0u64);
-    let mut g = 0;
-    while g < N {
-        if sel(g) {
-            c += 1;
-            s += sizes[g];
-        }
-        if eff(g) >= lo && eff(g) <= hi {
-            cr += 1;
-        }
-        if eff(g) <= 0 {
-            se += sizes[g];
-        }
-        g += 1;
-    }
-    assert!(r.len() == c, "entries_by_tags returns a wrong number of entries");
-    assert!(total == s, "calculate_size_for_tags is not the sum over the selected set");
-    assert!(rr.len() == cr, "entries_by_priority_range returns a wrong number of entries");
-    assert!(ess == se, "essential_download_size is not the sum over essential entries");
+    assert!(rr.len() == in0 as usize + in1 as usize, "entries_by_priority_range returns a wrong number of entries");
     let p: usize = kani::any();
-    if p < r.len() {
-        assert!(sel(r[p].0), "entries_by_tags returned an unselected entry");
-        if p + 1 < r.len() {
-            assert!(r[p].0 < r[p + 1].0, "ascending order");
-        }
-    }
     if p < rr.len() {
-        assert!(eff(rr[p].0) >= lo && eff(rr[p].0) <= hi, "entries_by_priority_range returned an entry outside the range");
+        assert!(if rr[p].0 == 0 { in0 } else { rr[p].0 == 1 && in1 }, "entries_by_priority_range returned an entry outside the range");
     }
-    kani::cover!(ver == 3 && prios[0] as i16 - base as i16 > 127, "saturation at +127");
-    kani::cover!(ver == 3 && (prios[0] as i16 - base as i16) < -128, "saturation at -128");
-    kani::cover!(both && c == 2, "two entries selected by two tags");
-    std::mem::forget(r);
+    let rc = m.entries_by_priority(PriorityCategory::Low);
+    assert!(rc.len() == (e0 > 5) as usize + (e1 > 5) as usize, "entries_by_priority(Low) wrong");
+    let ess = m.essential_download_size();
+    assert!(ess == (if e0 <= 0 { sizes[0] } else { 0 }) + (if e1 <= 0 { sizes[1] } else { 0 }), "essential_download_size is not the sum over essential entries");
+    kani::cover!(ver == 3 && in0 && !in1, "one entry in range under V3");
     std::mem::forget(rr);
+    std::mem::forget(rc);
     std::mem::forget(m);
 }
